@@ -25,7 +25,7 @@ type Profile struct {
 }
 
 func weighted(w map[string]int) []string {
-	order := []string{"resolve", "reserr", "state", "pick", "done", "adv", "failnew", "cancel", "allready", "bindflow", "decall", "readyrepl", "staledown", "emptypool", "saturate", "refreshcycle", "stalede", "affswap", "fbflow", "bindacross", "growmax", "multibind", "fillwm", "affburst", "flaprefresh", "rrempty", "rrstraddle", "unbindrace", "resurrect", "rrwrap"}
+	order := []string{"resolve", "reserr", "state", "pick", "done", "adv", "failnew", "cancel", "allready", "bindflow", "decall", "readyrepl", "staledown", "emptypool", "saturate", "refreshcycle", "stalede", "affswap", "fbflow", "bindacross", "growmax", "multibind", "fillwm", "affburst", "flaprefresh", "rrempty", "rrstraddle", "unbindrace", "resurrect", "rrwrap", "rrdead"}
 	var out []string
 	for _, k := range order {
 		for i := 0; i < w[k]; i++ {
@@ -283,6 +283,32 @@ func genStep(p *Profile, cfg *Config) *rapid.Generator[[]Op] {
 			ops = append(ops, Op{K: "state", Sel: 5, Key: k2, St: 4}, Op{K: "state", Sel: 4, Key: k2, St: 2},
 				Op{K: "state", Sel: 5, Key: k, St: rapid.SampledFrom([]int{1, 3, 0}).Draw(t, "rdown")})
 			return append(ops, Op{K: "pick", M: 2, Key: k}, Op{K: "pick", M: 2, Key: k}, Op{K: "pick", M: 0})
+		case "rrdead":
+			// channels leave the pool (SHUTDOWN), possibly all of them and the pool is re-created; then BINDs: the rotation
+			// covers exactly the channels of the pool, nobody waits for one that is gone
+			var ops []Op
+			for i := 0; i < 6; i++ {
+				ops = append(ops, Op{K: "state", Idx: i, St: 2})
+			}
+			nd := rapid.SampledFrom([]int{1, 1, 2, 7}).Draw(t, "ndead")
+			for i := 0; i < nd; i++ {
+				ops = append(ops, Op{K: "state", Sel: 0, Idx: rapid.IntRange(0, 5).Draw(t, "dwhich"), St: 4})
+			}
+			if nd == 7 {
+				ops = append(ops, Op{K: "resolve", Addrs: 0, Cfg: 1})
+			}
+			if rapid.Bool().Draw(t, "dready") {
+				for i := 0; i < 6; i++ {
+					ops = append(ops, Op{K: "state", Idx: i, St: 2})
+				}
+			}
+			for i := 0; i < 7; i++ {
+				ops = append(ops, Op{K: "pick", M: 1, Key: rapid.IntRange(0, 3).Draw(t, "dk"), DlMs: rapid.SampledFrom([]int{0, 0, 50}).Draw(t, "ddl")})
+				if rapid.IntRange(0, 2).Draw(t, "ddone") != 0 {
+					ops = append(ops, Op{K: "done", Idx: -1, Out: 0})
+				}
+			}
+			return ops
 		case "rrwrap":
 			// the cursor is placed just before a wrap point, then enough BINDs follow to cross it
 			var ops []Op
@@ -548,8 +574,8 @@ var Profiles = map[string]*Profile{
 		W: map[string]int{"resolve": 1, "state": 5, "pick": 8, "done": 8, "adv": 4, "failnew": 3, "allready": 2, "decall": 24, "readyrepl": 10, "refreshcycle": 10, "stalede": 8, "rrstraddle": 4}, Methods: []int{0, 0, 2, 1}},
 	"fallback": {Name: "fallback", Min: [2]int{2, 4}, Max: [2]int{2, 4}, WM: []int{1, 2, 3}, Fallback: 100, UdMs: []int64{0, 7, 100}, UdCalls: []int{1}, Strict: 50,
 		W: map[string]int{"resolve": 1, "state": 8, "pick": 20, "done": 6, "adv": 1, "allready": 3, "bindflow": 10, "decall": 5, "readyrepl": 6, "staledown": 6, "saturate": 2, "fbflow": 16, "affswap": 2, "bindacross": 1, "resurrect": 4}, Methods: []int{0, 2, 2, 2, 2, 5, 3, 1}},
-	"rr": {Name: "rr", Min: [2]int{1, 6}, Max: [2]int{1, 6}, WM: []int{1, 2, 100}, Fallback: 20, UdMs: []int64{0, 7, 100}, UdCalls: []int{1}, RR: 100, Strict: 50,
-		W: map[string]int{"rrwrap": 3, "resolve": 1, "state": 12, "pick": 30, "done": 8, "adv": 4, "cancel": 4, "allready": 3, "decall": 3, "readyrepl": 4, "staledown": 5, "saturate": 1}, Methods: []int{1, 1, 1, 1, 4, 0, 2}},
+	"rr": {Name: "rr", Min: [2]int{1, 6}, Max: [2]int{1, 6}, WM: []int{1, 2, 100}, Fallback: 20, UdMs: []int64{0, 7, 100}, UdCalls: []int{1}, RR: 100, Strict: 50, Shutdown: true,
+		W: map[string]int{"rrwrap": 3, "rrdead": 4, "emptypool": 1, "resolve": 1, "state": 12, "pick": 30, "done": 8, "adv": 4, "cancel": 4, "allready": 3, "decall": 3, "readyrepl": 4, "staledown": 5, "saturate": 1}, Methods: []int{1, 1, 1, 1, 4, 0, 2}},
 	"addresses": {Name: "addresses", Min: [2]int{1, 3}, Max: [2]int{1, 4}, WM: []int{1, 2}, UdMs: []int64{7, 100}, UdCalls: []int{1}, Strict: 30, Shutdown: true,
 		W: map[string]int{"resolve": 12, "reserr": 4, "state": 6, "pick": 10, "done": 5, "adv": 1, "allready": 3, "decall": 12, "readyrepl": 8, "saturate": 5, "failnew": 1, "refreshcycle": 4}, Methods: []int{0, 0, 2}},
 	"cfg": {Name: "cfg", Wild: true, WM: []int{1}, Fallback: 30, UdMs: []int64{0, 7}, UdCalls: []int{0, 1}, RR: 20, Strict: 30, CfgOps: true, NoFirst: 30,
